@@ -85,11 +85,21 @@ type TxSpec struct {
 	// LastInPreCommit: the last operation is not issued by the body itself but from a pre-commit action it registers
 	// (the application's "do this just before the commit" hook); a rejection there fails the commit
 	LastInPreCommit bool `json:"lastInPreCommit,omitempty"`
+	// PreCommitNested (with LastInPreCommit): the pre-commit action does not issue the operation itself but registers a
+	// second pre-commit action that does. Whether such a late registration still runs in this transaction is not
+	// stated: the operation counts only if it was actually issued, and if it was, a rejection fails the commit
+	PreCommitNested bool `json:"preCommitNested,omitempty"`
+	// ViaMigration: the transaction is a migration step run by MigrationManager.Migrate with the step's (ordinary)
+	// context; a failure is reported with step.SetError while the step still returns the version it was heading for
+	ViaMigration bool `json:"viaMigration,omitempty"`
+	// FreshInstance (RunHistory only): before this transaction the data moves, through a snapshot restore, into a
+	// newly started instance whose stores were initialised on an empty database
+	FreshInstance bool `json:"freshInstance,omitempty"`
 }
 
 // UsesNilCtx reports whether the transaction is run as Db.Update(nil, ...): nothing can be registered on the context
 // before the transaction then.
-func (t TxSpec) UsesNilCtx() bool { return t.NilCtx && !t.System && !t.Batch }
+func (t TxSpec) UsesNilCtx() bool { return (t.NilCtx || t.ViaMigration) && !t.System && !t.Batch }
 
 func (t TxSpec) String() string {
 	var parts []string
@@ -117,6 +127,15 @@ func (t TxSpec) String() string {
 	}
 	if t.LastInPreCommit {
 		flags += " [last operation issued from a pre-commit action]"
+		if t.PreCommitNested {
+			flags += " [registered by another pre-commit action]"
+		}
+	}
+	if t.ViaMigration {
+		flags += " [migration step]"
+	}
+	if t.FreshInstance {
+		flags += " [after the data moved into a fresh instance by snapshot restore]"
 	}
 	if t.NilCtx {
 		flags += " [Db.Update(nil, ...)]"
@@ -443,6 +462,13 @@ func RunTxHooks(w *World, m *Model, tx TxSpec, beforeTx func(ctx boltz.MutateCon
 			if tx.LastInPreCommit && !tx.Batch && !tx.Fail && i == len(tx.Ops)-1 {
 				op := op
 				actx := ctx
+				if tx.PreCommitNested {
+					ctx.AddPreCommitAction(func(boltz.MutateContext) error {
+						actx.AddPreCommitAction(func(boltz.MutateContext) error { return step(actx, op) })
+						return nil
+					})
+					continue
+				}
 				ctx.AddPreCommitAction(func(boltz.MutateContext) error { return step(actx, op) })
 				continue
 			}
@@ -470,6 +496,15 @@ func RunTxHooks(w *World, m *Model, tx TxSpec, beforeTx func(ctx boltz.MutateCon
 	switch {
 	case tx.Batch:
 		txErr = w.Z.Db.Batch(topCtx, run)
+	case tx.UsesNilCtx() && tx.ViaMigration:
+		// every migration-step transaction is a component of its own, at version 0 heading for version 1
+		w.MigSeq++
+		txErr = boltz.NewMigratorManager(w.Z.Db).Migrate(fmt.Sprintf("verif-%d", w.MigSeq), 1, func(step *boltz.MigrationStep) int {
+			if err := run(step.Ctx); err != nil {
+				step.SetError(err)
+			}
+			return 1
+		})
 	case tx.UsesNilCtx():
 		txErr = w.Z.Db.Update(nil, run)
 	default:
